@@ -51,4 +51,13 @@
                             (((m1) == NUMERIC || (m2) == NUMERIC) ? NUMERIC : NO_TYPE)))
 #define ENS_TYPE_ARITH PROP(C02) __CPROVER_ensures((OK && g_eval_n == 2 && V_LEVEL(A1) == 0 && V_LEVEL(A2) == 0 && ARITH_TYPE(V_MAJOR(A1), V_MAJOR(A2)) != NO_TYPE) ==> \
       (V_IS(RET, ARITH_TYPE(V_MAJOR(A1), V_MAJOR(A2))) && VALID_TAG(RET)))
+/* ---- compiled type of an arithmetic node, as a function of the compiled types of its operands.
+ * An operand whose compiled type is opaque (NO_TYPE) can deliver any type at run time, so the node's type is
+ * only defined when the operand types determine the result type of value(). */
+#define ST_MAJ(t) ((t)->_major)
+/* operand types for which some evaluation succeeds (for the others every evaluation is a type error and any compiled type is harmless) */
+#define ST_ARITH(t) ((t)->_level == 0 && ((t)->_major == NO_TYPE || (t)->_major == INTEGER || (t)->_major == NUMERIC || (t)->_major == IMAGINARY || (t)->_major == LITERAL))
+#define ENS_STYPE_ARITH(EXTRA) \
+  PROP(C02) __CPROVER_ensures(g_type_n <= 2 && __exc == 0) \
+  PROP(C02) __CPROVER_ensures((g_type_n == 2 && ST_ARITH(ST1) && ST_ARITH(ST2)) ==> (RET->_level == 0 && RET->_major == (EXTRA ARITH_TYPE(ST_MAJ(ST1), ST_MAJ(ST2)))))
 #endif
